@@ -276,6 +276,60 @@ func main() {
 			}
 			w.Add(VL(VS("pack"), kind, VN(fits(packLim)), VN(fits(unpackLim)), VB(ids), gz.TabVal(), g.Val()), VL(packObs, unpObs))
 			distinct.Add(human)
+		case mode >= 17: // one frame arriving in chunks while the SAME protocol instance packs
+			st.Count("mode:duplex")
+			socket.SetMessageSizeLimit(c05lib.BigLim)
+			g := c05lib.GenMessage(r, st, prof)
+			if len(g.Body) > 20000 {
+				g.Body = g.Body[:20000]
+			}
+			ids := c05lib.GenIds(r, false)
+			if structMode {
+				ids = nil
+				g.Codec = 't'
+			}
+			if g.Mtype < 1 || g.Mtype > 3 {
+				g.Mtype = 1
+			}
+			out, res, _, _ := packOne(pf, g, ids)
+			if res != "ok" {
+				w.Add(VL(VS("stream"), kind, gz.TabVal(), VL()), VL(VL(), "sok"))
+				break
+			}
+			render := func(u unpacked) string {
+				if !u.ok {
+					return "sfail"
+				}
+				return VL(VS("ok"), u.fields) + " " + VN(int64(u.size))
+			}
+			rwA := &c05lib.ChunkRW{Chunks: [][]byte{append([]byte(nil), out...)}}
+			alone := render(unpackOne(pf(rwA)))
+			og := c05lib.GenMessage(r, st, prof)
+			if len(og.Body) > 2000 {
+				og.Body = og.Body[:2000]
+			}
+			og.Mtype = 3
+			if structMode {
+				og.Codec = 't'
+			}
+			var busyU unpacked
+			busy, ok := c05lib.Duplex(pf, c05lib.Cuts(r, out), false,
+				func(pr socket.Proto) string { busyU = unpackOne(pr); return render(busyU) },
+				func(pr socket.Proto) {
+					defer func() { recover() }()
+					pr.Pack(newMessage(og, nil))
+				})
+			human := c05lib.Clip(fmt.Sprintf("%s duplex frame=%x", name, out))
+			c05lib.DuplexOracle(st, i, alone, busy, ok, human)
+			if ok && busyU.ok && int(busyU.size) != len(out) {
+				st.Fail(i, "size-not-own", fmt.Sprintf("a frame of %d bytes is reported with size %d when the same protocol instance sends while it arrives", len(out), busyU.size), human)
+			}
+			obs := VL(VL(), "sfail")
+			if ok && busyU.ok {
+				obs = VL(VL(VL(VS("ok"), busyU.fields)), "sok")
+			}
+			w.Add(VL(VS("stream"), kind, gz.TabVal(), VL(VL(VB(ids), g.Val()))), obs)
+			distinct.Add(human)
 		default:
 			st.Count("mode:stream")
 			socket.SetMessageSizeLimit(c05lib.BigLim)
